@@ -53,6 +53,13 @@ def _apply_fix(e, rows, params):
         a, b = rows[i][j], rows[j][i]
         e.assume((a != 0) if s in (1, 3) else (a == 0))
         e.assume((b != 0) if s in (2, 3) else (b == 0))
+    if params.get('no_other_undirected'):
+        fixed = {(i, j) for (i, j, s_) in params.get('fixpairs', [])}
+        p_ = len(rows)
+        for i in range(p_):
+            for j in range(i + 1, p_):
+                if (i, j) not in fixed:
+                    e.assume(G.Z(G.Not(G.And(rows[i][j] != 0, rows[j][i] != 0))))
     mx = params.get('max_edges')
     if mx is not None:
         p = len(rows)
